@@ -313,11 +313,14 @@ func vUpgradeScenario(w vUp, withV7 bool, modes []int, lean bool, orig vOrig) {
 	verifAssert("C08-old-v7-directory-gone", !vExists(w.old7))
 	verifAssert("C08-no-plan-or-temporary-left", !vLeftovers(w.root))
 	v := vObserve(w.new10)
-	verifAssert("C08-new-directory-is-a-readable-store", v.ok)
+	// (a database file that cannot be read and one that reads as another database are the same
+	// failure, "not the database of the newest original": which of the two a damaged file is
+	// depends on SQLite)
+	verifAssert("C08-new-directory-is-a-readable-store", v.ok || strings.HasPrefix(v.why, "content:"))
 	verifAssert("C08-new-directory-holds-one-snapshot", v.n == 1)
 	verifAssert("C08-index-of-newest-original", v.index == orig.index)
 	verifAssert("C08-term-of-newest-original", v.term == orig.term)
-	verifAssert("C08-database-of-newest-original", v.content == orig.content)
+	verifAssert("C08-database-of-newest-original", v.ok && v.content == orig.content)
 	if !withV7 {
 		// v8 and v10 keep the database as the same kind of file: the upgrade moves it unchanged
 		b, err := os.ReadFile(filepath.Join(w.new10, orig.id, dbfileName))
@@ -336,8 +339,8 @@ func vUpgradeScenario(w vUp, withV7 bool, modes []int, lean bool, orig vOrig) {
 // VerifC08Upgrade8To10: v8 directory; the process dies at every crash point of the start, before
 // the call or inside it; the restarted start dies at every crash point (or none). The scenarios
 // ("deep" chooses among them):
-//   quick:    two-snapshot shapes: first crash before/inside the call (thin), a second crash
-//             (before the call) only after a first crash before the call;
+//   quick:    two-snapshot shapes: first crash before/inside the call (thin); for the first of
+//             them a second crash (before the call) after a first crash before the call;
 //             one-snapshot shape: two crashes, each before/inside the call (thin); or three
 //             crashes before the call
 //   thorough: every shape: one crash before/inside the call (every cut position, every subset of a
@@ -354,7 +357,9 @@ func VerifC08Upgrade8To10() {
 	lean := false
 	if verifTier() == 0 {
 		switch {
-		case shapeNo > 0:
+		case shapeNo == 2:
+			modes = []int{vPartThin}
+		case shapeNo == 1:
 			modes, lean = []int{vPartThin, vPartNone}, true
 		case verifChoice("deep", 2) == 0:
 			modes = []int{vPartThin, vPartThin}
@@ -376,8 +381,8 @@ func VerifC08Upgrade8To10() {
 }
 
 // VerifC08FromV7: v7 directory, the whole start sequence (7 -> 8 -> 10 -> store check).
-//   quick:    first crash before/inside the call (thin), a second crash (before the call) only
-//             after a first crash before the call
+//   quick:    first crash before/inside the call (thin); except for the second shape a second
+//             crash (before the call) after a first crash before the call
 //   thorough: every variant of the old directory: one crash before/inside the call (every cut
 //             position, every subset of a removal); or two crashes, the first before/inside the
 //             call (thin), the second before the call - for the plain variants (database data
@@ -400,7 +405,11 @@ func VerifC08FromV7() {
 	orig := vBuildV7(w, vOldShapes[shapeNo], emptyState, olderWithoutState)
 	vPTSName, vPTSShape, vPTSEmpty, vPTSWithout = "VerifC08FromV7", shapeNo, emptyState, olderWithoutState
 	modes, lean := []int{vPartThin, vPartNone}, true
+	if shapeNo == 1 {
+		modes = []int{vPartThin}
+	}
 	if verifTier() > 0 {
+		modes = []int{vPartThin, vPartNone}
 		lean = false
 		switch {
 		case verifChoice("deep", 2) == 0:
